@@ -338,11 +338,11 @@ public:
   }
   ExposedT operator++() {
     this->value = OnStoreSt::fn(OnLoadSt::fn(this->value) + 1);
-    return this->value;
+    return OnLoadSt::fn(this->value);
   }
   ExposedT operator--() {
     this->value = OnStoreSt::fn(OnLoadSt::fn(this->value) - 1);
-    return this->value;
+    return OnLoadSt::fn(this->value);
   }
   ExposedT operator++(int) {
     ExposedT ret = OnLoadSt::fn(this->value);
